@@ -162,6 +162,30 @@ def shard_country(arg):
             rec.fail(f"differs_after_other_use|{cc}", "same_seed_same_result", {**c, "origin": "touch"}, a, b)
         check_call(rec, c, "after-touch")
         rec.case("after-touch", json.dumps(c, sort_keys=True))
+    # pins equal to what the generator would have produced anyway: a component pinned to the value that the no-registry
+    # (resp. registry) draw with the same seed has there must still be honoured in the other mode
+    o_ = oracle()
+    if cc:
+        for sd in range(3 if tier == "quick" else 40):
+            # source draws: the other registry mode without pins, and the same mode with one other component pinned to a
+            # random conforming value (which changes what the remaining components are derived from)
+            sources = [(not m, {}) for m in (False, True)]
+            for m in (False, True):
+                for k0 in pinnable(cc):
+                    a0, e0 = o_.positions(cc)[k0]
+                    sources.append((m, {k0: conforming(rng, gen().classes(cc)[a0:e0], e0 - a0)}))
+            for src_mode, src_pins in sources:
+                src = evaluate({"cls": "IBAN", "cc": cc, "seed": sd, "use_registry": src_mode, "pins": src_pins})
+                if src[0] != "ok":
+                    continue
+                target_mode = (not src_mode) if not src_pins else src_mode
+                for k in pinnable(cc):
+                    if k in src_pins:
+                        continue
+                    v = o_.component(cc, src[1][4:], k)
+                    call = {"cls": "IBAN", "cc": cc, "seed": sd, "use_registry": target_mode, "pins": {k: v}}
+                    check_call(rec, call, "pin-from-other-mode")
+                    rec.case("pin-from-other-mode", json.dumps(call, sort_keys=True))
     for cls in ("IBAN", "BBAN"):
         for use_registry in (True, False):
             for j in range(n if cls == "IBAN" else max(3, n // 4)):
@@ -254,5 +278,5 @@ def run(ctx):
     ctx.rec.classes["cross-process-comparisons"] += len(batch) * len(hs)
     ctx.extra["hash_seeds"] = hs
     ctx.rec.sample("cross-process", {"batch_size": len(batch), "first": batch[0], "hashseeds": hs})
-    ctx.require_classes("after-touch", "IBAN-registry-pinned-ok", "IBAN-noregistry-pinned-ok", "IBAN-registry-free-ok", "BBAN-registry-free-ok",
+    ctx.require_classes("pin-from-other-mode", "after-touch", "IBAN-registry-pinned-ok", "IBAN-noregistry-pinned-ok", "IBAN-registry-free-ok", "BBAN-registry-free-ok",
                         "hyp-pinned-ok", "cross-process-comparisons", *[f"ok-{cc or 'ANY'}" for cc in ccs])
